@@ -74,6 +74,8 @@ def expr_sql(e):
         return sql_str(e[1])
     if t == "col":
         return col_sql(e[1], hint(e, "style", 0))
+    if t == "selc":
+        return "`" + e[1] + "`"
     if t in ("and", "or"):
         return "(%s %s %s)" % (expr_sql(e[1]), t.upper(), expr_sql(e[2]))
     if t == "not":
@@ -160,6 +162,11 @@ def from_sql(f):
         if alias:
             txt += " " + ("AS " if hint(f, "as", False) else "") + ident(alias)
         return txt
+    if t == "tablesel":
+        txt = "`" + f[1] + "`"
+        if f[2]:
+            txt += " " + ident(f[2])
+        return txt
     if t == "derived":
         return "(" + query_sql(f[1]) + ") AS " + ident(f[2])
     if t == "join":
@@ -218,6 +225,16 @@ def num(x):
 
 def col(*path, style=0):
     return ["col", list(path), {"style": style}]
+
+
+def selc(text):
+    """column written as a selector text (more than a key path)"""
+    return ["selc", text]
+
+
+def tablesel(text, alias=""):
+    """table named by a selector text; ident = alias, else the text up to the first dot (`strings.SplitN(name, ".", 2)[0]`)"""
+    return ["tablesel", text, alias, alias if alias else text.split(".", 1)[0]]
 
 
 def select(sel, frm, wh=TRUE, ctes=None, distinct=False, gb=None, hv=TRUE, order=None, limit=None,
